@@ -368,6 +368,14 @@ Section Inv.
     match goal with |- context [new_src ?a ?b ?c ?d ?e ?f] => destruct (new_src a b c d e f) as [w2 i] eqn:En end.
     pose proof (MP_new_src_eq _ _ _ _ _ _ _ _ En H1) as H2. cbn [fst]. mp.
   Qed.
+  Lemma MP_register_dup_fd w m key p one up : MP w -> MP (fst (register_dup_fd w m key p one up)).
+  Proof.
+    intros H. unfold register_dup_fd. destruct (mod_assert w m); [exact H|]. destruct (Nat.leb 4 p); [exact H|].
+    destruct (consume_token w m) as [w1|] eqn:Ec; [|exact H]. pose proof (MP_consume_token _ _ _ H Ec) as H1.
+    destruct (get_mod w1 m) as [mr|]; [|exact H1]. cbn zeta.
+    match goal with |- context [new_src ?a ?b ?c ?d ?e ?f] => destruct (new_src a b c d e f) as [w2 i] eqn:En end.
+    pose proof (MP_new_src_eq _ _ _ _ _ _ _ _ En H1) as H2. cbn [fst]. mp.
+  Qed.
   Lemma MP_register_eq w m k key p one ac int up w1 r : register_mod_src w m k key p one ac int up = (w1, r) -> MP w -> MP w1.
   Proof. intros E H. pose proof (MP_register_mod_src w m k key p one ac int up H) as H1. rewrite E in H1. exact H1. Qed.
 
@@ -403,6 +411,7 @@ Section Inv.
     | |- MP (fst (new_src _ _ _ _ _ _)) => apply MP_new_src
     | |- MP (fst (register_mod_src _ _ _ _ _ _ _ _ _)) => apply MP_register_mod_src
     | |- MP (fst (deregister_mod_src _ _ _ _)) => apply MP_deregister_mod_src
+    | |- MP (fst (register_dup_fd _ _ _ _ _ _)) => apply MP_register_dup_fd
     end.
 
   Lemma MP_optional_hook w m k : MP w -> MP (fst (optional_hook run_cb w m k)).
@@ -452,6 +461,7 @@ Section Inv.
     | |- MP (fst (new_src _ _ _ _ _ _)) => apply MP_new_src
     | |- MP (fst (register_mod_src _ _ _ _ _ _ _ _ _)) => apply MP_register_mod_src
     | |- MP (fst (deregister_mod_src _ _ _ _)) => apply MP_deregister_mod_src
+    | |- MP (fst (register_dup_fd _ _ _ _ _ _)) => apply MP_register_dup_fd
     | |- MP (fst (optional_hook _ _ _ _)) => apply MP_optional_hook
     | |- MP (fst (make_evt _ _ _ _ _)) => apply MP_make_evt
     end.
